@@ -12,6 +12,9 @@ import (
 	baskettypes "github.com/regen-network/regen-ledger/x/ecocredit/v3/basket/types/v1"
 	markettypes "github.com/regen-network/regen-ledger/x/ecocredit/v3/marketplace/types/v1"
 
+	authtypes "github.com/cosmos/cosmos-sdk/x/auth/types"
+
+	"verifharness/chain"
 	"verifharness/eng"
 	"verifharness/obs"
 	"verifharness/ref"
@@ -254,7 +257,9 @@ func (m *C11) AfterTx(e *eng.Engine, t *eng.TxRec) {
 			m.putsRej++
 		}
 		// completeness: in the ordinary stratum an admissible Put by an owner with the credits must succeed
-		if allAdm && reprAll && ordinary && len(x.Credits) > 0 {
+		// (owners that are module accounts are left out: no key can sign for them on a chain, and the bank
+		// refuses to deliver the minted basket tokens to a blocked address)
+		if allAdm && reprAll && ordinary && len(x.Credits) > 0 && !moduleAccount(x.Owner) {
 			has := true
 			for k, n := range need {
 				tr, _, _ := pre.BalOf(x.Owner, k)
@@ -633,4 +638,16 @@ func (m *C12) Finish(e *eng.Engine, cov map[string]interface{}) {
 	cov["pruned_after"] = m.prunedAfter.JSON()
 	cov["purchases_checked_for_expiry"] = m.buys
 	cov["samples"] = m.samples
+}
+
+var moduleAccounts map[string]bool
+
+func moduleAccount(addr string) bool {
+	if moduleAccounts == nil {
+		moduleAccounts = map[string]bool{}
+		for _, n := range chain.ModuleAccountNames() {
+			moduleAccounts[authtypes.NewModuleAddress(n).String()] = true
+		}
+	}
+	return moduleAccounts[addr]
 }
